@@ -56,7 +56,8 @@ def reseat_bpm_changes_snap(
 
         # BCS_0 is guaranteed to be on a measure.
         # Extend case, see docstring
-        if 0 < measure_diff_rem <= extend_threshold:
+        # (there must be a whole measure before BCS_1 to extend)
+        if 0 < measure_diff_rem <= extend_threshold and measure_diff_quo >= 1:
             # Extend by nudging bpm
             bcs = BpmChangeSnap(
                 bcs_0.bpm / (measure_diff_rem + 1),
@@ -92,7 +93,7 @@ def reseat_bpm_changes_snap(
                 bcs_s.insert(i + 1, bcs)
                 offsets.insert(i + 1, offset)
 
-        elif measure_diff_rem > extend_threshold:
+        elif measure_diff_rem > 0:
             # This means it's not possible to simply extend
             bcs = BpmChangeSnap(
                 bcs_0.bpm / measure_diff_rem,
